@@ -964,10 +964,10 @@ def run_polygon(case, seed, R):
     sig = f'regular_polygon:sides={sides}'
     masks, bands = [], []
     nband = 0
-    for rs in POLY_R:
+    for rs in case.get('radii', POLY_R):
         rad = rs * dx
         kw = {} if centred and case.get('defaults') else {'center': (x0, y0), 'rotation': rot}
-        m = as_mask(R, R.call(geometry.regular_polygon, sides, rad, x, y, sig=sig + ':exception', **kw), (n0, n1), sig,
+        m = as_mask(R, R.call(geometry.regular_polygon, sides, rad, x, y, sig=sig + ':exception', hygiene=n0 * n1 <= 200000, **kw), (n0, n1), sig,
                     f'regular_polygon({sides}, {rad})')
         d = poly_dist(x, y, sides, rad, (x0, y0), rot)
         band = np.abs(d) <= BAND * (L + rad)
@@ -1182,6 +1182,9 @@ def plan(tier, seed):
                   for s in range(3, 9) for n in grids for dx in dxs for rot in (0, 90, 15, 37.3, -20, 180) for c in offs]
     poly_cases += [{'n0': n[0], 'n1': n[1], 'dx': 1.0, 'sides': s, 'rot': 0, 'cx': 0.0, 'cy': 0.0, 'defaults': True}
                    for s in range(3, 9) for n in grids]
+    # size thresholds of the rasteriser (grids above 2^16 / 2^20 samples, polygon reaching the last rows and columns): not closed over sizes
+    poly_cases += [{'n0': n[0], 'n1': n[1], 'dx': 0.5, 'sides': sd, 'rot': rot, 'cx': c[0], 'cy': c[1], 'radii': [0.3 * min(n), 0.62 * min(n)]}
+                   for (n, sd, rot, c) in (([300, 301], 6, 15, (0.0, 0.0)), ([1100, 1000], 6, 15, (3.3, -7.1)), ([1030, 1031], 5, -20, (0.0, 0.0)))]
     spid_cases = [{'n0': n[0], 'n1': n[1], 'dx': dx, 'vanes': v, 'rot': rot, 'rad': rad, 'cx': c[0], 'cy': c[1]}
                   for v in range(1, 7) for n in grids for dx in dxs for rot in (0, 30, 90, 45.5, -20, -100, 200, 400) for rad in (False, True) for c in offs]
     # integer-count parameters beyond the small alphabets: every count up to 17, in particular those that do not divide 360
